@@ -42,7 +42,7 @@ LEVEL_NOTE = ("Trusted: Coq kernel; AST translator; extraction + driver (cross-c
               "append, whole-process crash, lock semantics. Partial: real kill timing / partial OS writes.")
 TECHNIQUE = "machine-checked proof in Rocq (Coq) of a transition system with crashes + AST re-translation (GenEq) + trace validation with crash injection"
 
-INP = {"s1": 3, "s2": 4, "subject_name": 6, "s0": 1, "s9": 2}
+INP = {"s1": 3, "s2": 4, "subject_name": 6, "s0": 1, "s9": 2, "n8": 5}
 INITS = [("absent", None), ("empty", None), ("header", None), ("rows", [["s0", 1]]), ("rows", [["s0", 1], ["s9", 2]])]
 STALE = [None, ["zz"], ["s1"]]
 NCTOR = 10
@@ -129,7 +129,8 @@ def run(ctx):
             again = calls + [ev("subject_name")]
             scens.append({"comps": [{"file": "a.tsv", "init": init, "init_rows": rows or [], "stale_buf": stale, "h": 7, "calls": calls}],
                           "events": session_events(0, sched) + [[0, 0, 0]] * 9 + [[0, 0, 1]] * 9 + [[3, 0, 7, again]]
-                                    + session_events(0, [0, 1, 2] * 9) + [[3, 0, 8, again]] + session_events(0, [0, 1, 2] * 3)
+                                    + session_events(0, [0] * 9 + [1] * 9 + [2] * 9) + [[3, 0, 8, again + [ev("n8")]]]
+                                    + session_events(0, [3] * 9 + [0, 1, 2] * 5)
                                     + [[2, 0, 7, again]], "complete": True})
     go(scens, "normal exit (atexit removes the buffer) -> resumed session -> session with a different setup (rejected, files untouched) -> resumed", True)
     # ---- output path without extension (D17)
